@@ -1,5 +1,5 @@
 (* C20 - batching never loses, duplicates or reorders items. Statements only; proofs in Proofs/C20_*.v. *)
-From Coq Require Import List NArith ZArith Bool.
+From Coq Require Import List NArith ZArith Bool Permutation.
 From RV Require Import Model.Batcher Model.Reorder Proofs.C20_Batcher Proofs.C20_Reorder.
 Import ListNotations.
 
@@ -82,6 +82,25 @@ Theorem reorder_one_result_per_input : forall (T R : Type) (f : T -> R) (p : rpa
   (quiescent s = true -> batch (bt s) = [] -> out s = map f (added s)).
 Proof. intros T R. exact reorder_itemwise_proof. Qed.
 Print Assumptions reorder_one_result_per_input.
+
+(* Fetch errors. FetchBatch returns (results, err); the outcome of fetching a batch is FOk results | FErr returned_results, and
+   fetch_of = the results that came back either way: the code reports the error on ErrChan and still fills the batch's slot with
+   them, so "the result" of a failed batch is what FetchBatch returned and later batches are never held up.
+   For every outcome function, adder script and schedule: the output statement of reorder_in_order holds with fetch_of;
+   every error reported belongs to a failed batch that was handed out; at quiescence every failed batch has reported exactly once. *)
+Theorem reorder_fetch_errors : forall (T R : Type) (fetchx : list T -> outcome R) (p : rparams),
+  rp_fixed p = true ->
+  forall (sc : list (aop T)) (acts : list action),
+  let xs := x_run fetchx p acts (x_init sc) in
+  let s := rx xs in
+  concat (flushed s) ++ batch (bt s) = added s /\
+  prefix (out s) (concat (map (fetch_of fetchx) (flushed s))) /\
+  (forall ev, In ev (x_errs fetchx xs) -> failed fetchx ev = true /\ In ev (flushed s)) /\
+  (quiescent s = true ->
+     out s = concat (map (fetch_of fetchx) (flushed s)) /\
+     Permutation (x_errs fetchx xs) (filter (failed fetchx) (flushed s))).
+Proof. intros T R. exact reorder_fetch_errors_proof. Qed.
+Print Assumptions reorder_fetch_errors.
 
 (* Quiescence is always reachable: in every reachable state that is not quiescent some goroutine can take a step
    (no deadlock between the flush mutex, the slots of the buffer and the buffer mutex; the consumer keeps receiving). *)
